@@ -152,6 +152,39 @@ def run(tier, replay=None):
             fail("ThreadSanitizer: %d data race report(s) between instances rendering on their own threads (emulators %s), first in %s" % (races, emus, loc.group(0)[:120] if loc else "?"), ops)
     except Exception as e:
         ctx.notes.append("ThreadSanitizer run not performed: %s" % str(e)[:200])
+    # uninitialised state: the outcome of a history must depend on the history only.  valgrind memcheck over the uninstrumented build reports every branch,
+    # address and output that depends on a value nobody wrote (in the library, or in the harness when it prints a field the library left undefined)
+    mc_runs, mc_ops = 0, 0
+    try:
+        import gen_smf
+        from . import seq_common as sq
+        jobs = []
+        ops = []
+        for k, emu in enumerate(EMUS):
+            ops += ["%d new 44100 %d %d" % (k, emu, rng.choice([1, 2])), "%d bank %s" % (k, bank)] + own_ops(rng, k) + ["%d digest" % k, "%d close" % k]
+        jobs.append(("iso", ops))
+        g = synth_gen.Gen(rng)
+        ops = []
+        for i in range(3 if quick else 24):
+            chips = rng.choice([1, 2, 3])
+            ops += g.history(rng.choice([40, 100]), chips=chips, chans=(0, 1, 9), keys=tuple(range(50, 50 + 4 * chips + 3)), arp=(i % 3 == 2), alloc=rng.choice([None, 0, 1, 2]))
+        jobs.append(("synth", ops))
+        ops = []
+        for i in range(2 if quick else 12):
+            song = gen_smf.gen_song(rng)
+            ops += sq.PREFIX + ["opendata " + song.encode().hex(), "loop %d" % (i % 2), "playlog 30000 512", "seek 0.5", "playlog 20000 512", "rewind", "tick 0.1 0.01"]
+        jobs.append(("api", ops))
+        for comp, ops in jobs:
+            reps = common.run_memcheck(comp, "\n".join(ops) + "\n")
+            if reps is None:
+                ctx.notes.append("memcheck run of component %s not performed (valgrind missing or timed out)" % comp)
+                continue
+            mc_runs += 1; mc_ops += len(ops)
+            if reps:
+                reps.sort(key=lambda r: ("comp_" in r or "snapshot" in r or "sstream" in r))      # the library's own reads first
+                fail("the outcome depends on uninitialised memory (valgrind memcheck, component %s): %s" % (comp, "; ".join(reps[:3])), ops)
+    except Exception as e:
+        ctx.notes.append("memcheck pass not performed: %s" % str(e)[:200])
     if known_hits:
         listed = [k for k in common.load_known() if k.get("status") == "open" and k.get("property") == PROP and k.get("id") == "nuked-chip-type-global"]
         if listed:
@@ -159,10 +192,10 @@ def run(tier, replay=None):
         else:
             fail(known_hits[0][0], known_hits[0][1])
     ctx.samples = samples
-    ctx.cov.update({"evaluations": cases + thr_cases, "interleaved_cases": cases, "threaded_cases": thr_cases, "tsan_race_reports": races, "monitor_failures": nfail, "disagreements": 0,
+    ctx.cov.update({"evaluations": cases + thr_cases, "interleaved_cases": cases, "threaded_cases": thr_cases, "tsan_race_reports": races, "memcheck_runs": mc_runs, "memcheck_ops": mc_ops, "monitor_failures": nfail, "disagreements": 0,
                     "traces_validated_against_impl": 0, "distinct_nontrivial": cases, "exhaustive": False,
                     "rule": "per emulator core: a random history of one instance is rendered alone twice (bit-identical PCM and register-write digests), then with another instance of each "
                             "other core created / given a bank / switched / played / closed between its calls (own digests must not change), then several instances render concurrently on "
                             "their own threads (digest = solo digest) and once more under ThreadSanitizer; every case is distinct by construction (fresh random history)"})
-    return ctx.finish(level="proof", trusted_extra=["ThreadSanitizer (g++ 12) for the data-race clause; FNV digests of PCM and register writes"],
+    return ctx.finish(level="proof", trusted_extra=["valgrind 3.19 memcheck for the uninitialised-state search", "ThreadSanitizer (g++ 12) for the data-race clause; FNV digests of PCM and register writes"],
                       assumptions=["emulator cores are exercised, not modelled: the Lean part covers the only cross-instance cell the library itself owns (see Props/C14)"])
